@@ -60,7 +60,16 @@ type ContentExtractor struct {
 func NewContentExtractor(root *html.Node, pageURL *nurl.URL, logger logutil.Logger) *ContentExtractor {
 	timingInfo := &data.TimingInfo{}
 
-	document := dom.QuerySelector(root, "html")
+	// The document element is the <html> element of the page; an element with
+	// that name inside an inline SVG picture or a MathML formula is not.
+	var document *html.Node
+	for _, node := range dom.QuerySelectorAll(root, "html") {
+		if node.Namespace == "" {
+			document = node
+			break
+		}
+	}
+
 	if document == nil {
 		document = root
 	}
